@@ -13,6 +13,7 @@ Definition pins : list string := ["usim/_concurrent/basics.py:_first_monitor";
   "usim/_basics/streams.py:Queue._await_message";
   "usim/_basics/streams.py:Queue.__aiter__";
   "usim/_basics/streams.py:Queue.put";
+  "usim/_basics/streams.py:Queue.__repr__";
   "usim/_primitives/context.py:CancelScope.__init__";
   "usim/_primitives/context.py:ScopeClosed.__init__";
   "usim/_primitives/context.py:Scope.__init__";
@@ -30,10 +31,12 @@ Definition pins : list string := ["usim/_concurrent/basics.py:_first_monitor";
   "usim/_primitives/context.py:Scope._collect_exceptions";
   "usim/_primitives/context.py:Scope._propagate_exceptions";
   "usim/_primitives/context.py:Scope._is_suppressed";
+  "usim/_primitives/context.py:Scope.__repr__";
   "usim/_primitives/context.py:InterruptScope.__init__";
   "usim/_primitives/context.py:InterruptScope.__aenter__";
   "usim/_primitives/context.py:InterruptScope._disable_interrupts";
   "usim/_primitives/context.py:InterruptScope._is_suppressed";
+  "usim/_primitives/context.py:InterruptScope.__repr__";
   "usim/_primitives/context.py:until";
   "usim/_primitives/context.py:<module>";
   "usim/_primitives/context.py:CancelScope.<attrs>";
